@@ -98,6 +98,19 @@ def run(ctx):
     for tail, w in cases:
         depth = rng.choice([0, 0, 1, 2, 3, 4, 5, 6])
         progs.append(history(rng, depth, tail) + " " + w)
+    # the top operand is a capture that replaces k values below it (`[ … ]: op_drop_below rebuilds the type profile)
+    if not ctx.replay:
+        seqlits = [v for v in POOL["q"] if v.startswith("[")]
+        for w in BINARY + UNARY:
+            for t in types:
+                for _ in range(2 if ctx.tier == "quick" else 10):
+                    a = rng.choice(POOL[t])
+                    b = rng.choice(seqlits) if seqlits else "[1]"
+                    k = rng.randint(1, 3)
+                    junkv = " ".join(rng.choice(POOL[rng.choice(types)]) for _ in range(k))
+                    below = " ".join(rng.choice(POOL[rng.choice(types)]) for _ in range(rng.randint(0, 4)))
+                    progs.append("%s %s %s %s%s %s" % (below, a, junkv, "`" * k, b, w))
+                    progs.append("%s %s %s %s%s swap %s" % (below, a, junkv, "`" * k, b, w))
     # operands that carry a non-zero position (they come out of `elem`): every operation numbers its own results afresh
     if not ctx.replay:
         for w in UNARY + BINARY:
